@@ -248,6 +248,7 @@ def run_history(case, env, res, ctx):
     from PIL import Image as PILImage
 
     image = None
+    held = []
     try:
         if kind == "file":
             image = cls.from_file(path, **case["size_kw"])
@@ -328,6 +329,11 @@ def run_history(case, env, res, ctx):
                             pass
                     elif ending == "drop":
                         pass
+                    elif ending == "image_first":
+                        # the caller keeps the (unfinished) iterator, closes the image first
+                        # and the iterator afterwards; it still holds the iterator when the
+                        # open files are counted
+                        held.append(it)
                     else:
                         for _ in it:
                             yielded += 1
@@ -372,12 +378,18 @@ def run_history(case, env, res, ctx):
         else:
             image.close()
         image.close()
+        for it in held:
+            it.close()
+            it.close()
+            res.count("iterators closed after their image")
+        it = None
     except Exception:
         errs.append(("exception", traceback.format_exc()[-1500:]))
     finally:
         image = None
         ref = None
     audit(res, errs, opened, fds0, tmp0, caller_pil)
+    del held[:]
     if caller_pil is not None:
         caller_pil.close()
     try:
@@ -561,13 +573,14 @@ def gen(rnd, persona):
     elif style == "iterm2":
         spec += rnd.choice(["", "+W", "+L", "+A", "+A", "+Wc9"])
     ops = []
-    for _ in range(rnd.randint(1, 5)):
+    nops = rnd.randint(1, 5)
+    for k in range(nops):
         r = rnd.random()
         if r < 0.6:
             repeat = rnd.choice([1, 2, 3, -1])
             steps = rnd.randint(0, n * 3 + 2)
             seeks = {str(s): rnd.randrange(n) for s in range(steps) if rnd.random() < 0.15} if rnd.random() < 0.5 else {}
-            ops.append(["iterate", repeat, rnd.choice([True, False, 100, 2]), steps, {int(k): v for k, v in seeks.items()}, rnd.choice(["close", "drop", "exhaust" if repeat > 0 else "close"])])
+            ops.append(["iterate", repeat, rnd.choice([True, False, 100, 2]), steps, {int(k): v for k, v in seeks.items()}, rnd.choice(["close", "drop", "exhaust" if repeat > 0 else "close"] + (["image_first"] * 2 if k == nops - 1 else []))])
         elif r < 0.7:
             ops.append(["str"])
         elif r < 0.8:
